@@ -239,3 +239,123 @@ theorem levels_fuel (pick : List Comp → List Comp) :
           rw [ih f' _ (by omega) (by omega)]
 
 end IV.Dr
+
+namespace IV.Dr
+
+/-! ### completeness: an acyclic graph is always sorted -/
+
+/-- every dependency mentioned in the graph is itself a key (what `prepare` establishes) -/
+def DepsAreKeys (g : Graph) : Prop := ∀ c ds, (c, ds) ∈ g → ∀ d ∈ ds, d ∈ g.keys
+
+/-- acyclic, witnessed by a rank that strictly decreases along dependencies -/
+def Ranked (rank : Comp → Nat) (g : Graph) : Prop := ∀ c ds, (c, ds) ∈ g → ∀ d ∈ ds, rank d < rank c
+
+theorem exists_min_rank (rank : Comp → Nat) : ∀ (g : Graph), g ≠ [] → ∃ kv ∈ g, ∀ kv' ∈ g, rank kv.1 ≤ rank kv'.1 := by
+  intro g
+  induction g with
+  | nil => intro h; exact absurd rfl h
+  | cons a as ih =>
+    intro _
+    by_cases has : as = []
+    · subst has; exact ⟨a, by simp, by simp⟩
+    · obtain ⟨m, hm, hmin⟩ := ih has
+      by_cases hle : rank a.1 ≤ rank m.1
+      · refine ⟨a, by simp, ?_⟩
+        intro kv' hkv'
+        rcases List.mem_cons.mp hkv' with rfl | h
+        · exact Nat.le_refl _
+        · exact Nat.le_trans hle (hmin kv' h)
+      · refine ⟨m, by simp [hm], ?_⟩
+        intro kv' hkv'
+        rcases List.mem_cons.mp hkv' with rfl | h
+        · omega
+        · exact hmin kv' h
+
+theorem ready_nonempty (rank : Comp → Nat) (g : Graph) (hne : g ≠ []) (hd : DepsAreKeys g) (hr : Ranked rank g) :
+    (ready g).isEmpty = false := by
+  obtain ⟨kv, hkv, hmin⟩ := exists_min_rank rank g hne
+  have hemp : kv.2 = [] := by
+    cases h : kv.2 with
+    | nil => rfl
+    | cons d ds =>
+      have hdk : d ∈ g.keys := hd kv.1 kv.2 hkv d (by simp [h])
+      obtain ⟨kv', hkv', hk'⟩ := List.mem_map.mp hdk
+      have h1 := hr kv.1 kv.2 hkv d (by simp [h])
+      have h2 := hmin kv' hkv'
+      rw [hk'] at h2
+      omega
+  have : kv.1 ∈ ready g := by
+    simp only [ready, List.mem_map, List.mem_filter]
+    exact ⟨kv, ⟨hkv, by simp [hemp]⟩, rfl⟩
+  cases hre : ready g with
+  | nil => rw [hre] at this; simp at this
+  | cons _ _ => rfl
+
+theorem prune_depsAreKeys (g : Graph) (r : List Comp) (hd : DepsAreKeys g) : DepsAreKeys (prune g r) := by
+  intro c ds hm d hdd
+  simp only [prune, List.mem_map, List.mem_filter] at hm
+  obtain ⟨kv, ⟨hkv, _⟩, he⟩ := hm
+  simp only [Prod.mk.injEq] at he
+  obtain ⟨rfl, rfl⟩ := he
+  rw [List.mem_filter] at hdd
+  rw [prune_keys, List.mem_filter]
+  exact ⟨hd kv.1 kv.2 hkv d hdd.1, hdd.2⟩
+
+theorem prune_ranked (rank : Comp → Nat) (g : Graph) (r : List Comp) (hr : Ranked rank g) : Ranked rank (prune g r) := by
+  intro c ds hm d hdd
+  simp only [prune, List.mem_map, List.mem_filter] at hm
+  obtain ⟨kv, ⟨hkv, _⟩, he⟩ := hm
+  simp only [Prod.mk.injEq] at he
+  obtain ⟨rfl, rfl⟩ := he
+  rw [List.mem_filter] at hdd
+  exact hr kv.1 kv.2 hkv d hdd.1
+
+theorem levels_complete (pick : List Comp → List Comp) (rank : Comp → Nat) :
+    ∀ (f : Nat) (g : Graph), g.length ≤ f → DepsAreKeys g → Ranked rank g → (levels pick f g).isSome = true := by
+  intro f
+  induction f with
+  | zero =>
+    intro g h _ _
+    have : g = [] := List.length_eq_zero_iff.mp (by omega)
+    subst this; simp [levels]
+  | succ f ih =>
+    intro g h hd hr
+    simp only [levels]
+    split
+    · rfl
+    · rename_i hne
+      have hne' : g ≠ [] := by intro e; simp [e] at hne
+      have hrd := ready_nonempty rank g hne' hd hr
+      simp only [hrd, Bool.false_eq_true, if_false]
+      have hlt := prune_length_lt g hrd
+      have := ih (prune g (ready g)) (by omega) (prune_depsAreKeys g _ hd) (prune_ranked rank g _ hr)
+      cases hl : levels pick f (prune g (ready g)) with
+      | none => simp [hl] at this
+      | some ls => simp
+
+theorem prepare_depsAreKeys (g : Graph) : DepsAreKeys (prepare g) := by
+  intro c ds hm d hdd
+  unfold prepare at hm
+  simp only [List.mem_append, List.mem_map] at hm
+  rcases hm with ⟨kv, hkv, he⟩ | ⟨x, _, he⟩
+  · simp only [Prod.mk.injEq] at he
+    obtain ⟨rfl, rfl⟩ := he
+    rw [List.mem_filter] at hdd
+    exact prepare_dep_key g kv.1 d kv.2 hkv hdd.1 (by simpa using hdd.2)
+  · simp only [Prod.mk.injEq] at he
+    rw [← he.2] at hdd; simp at hdd
+
+theorem prepare_ranked (rank : Comp → Nat) (g : Graph)
+    (hr : ∀ c ds, (c, ds) ∈ g → ∀ d ∈ ds, d ≠ c → rank d < rank c) : Ranked rank (prepare g) := by
+  intro c ds hm d hdd
+  unfold prepare at hm
+  simp only [List.mem_append, List.mem_map] at hm
+  rcases hm with ⟨kv, hkv, he⟩ | ⟨x, _, he⟩
+  · simp only [Prod.mk.injEq] at he
+    obtain ⟨rfl, rfl⟩ := he
+    rw [List.mem_filter] at hdd
+    exact hr kv.1 kv.2 hkv d hdd.1 (by simpa using hdd.2)
+  · simp only [Prod.mk.injEq] at he
+    rw [← he.2] at hdd; simp at hdd
+
+end IV.Dr
